@@ -354,6 +354,11 @@ func (bindings *BindStms) compileWildcard(binding *BindStm,
 	// type assertion is guaranteed by the syntax
 	ref := binding.Exp.(*RefExp)
 	var errs ErrorList
+	if ref.Kind == KindSelf && pipeline == nil {
+		return global.err(binding,
+			"ScopeNameError: the wildcard binding of a top-level call "+
+				"cannot refer to 'self': there is no enclosing pipeline")
+	}
 	if ref.Kind == KindSelf && ref.Id == "" {
 		fakeBindings := make([]BindStm, len(pipeline.InParams.List))
 		for i, m := range pipeline.InParams.List {
